@@ -6,7 +6,9 @@ EXTENDS Naturals, Sequences, FiniteSets, TLC, Json, Randomization
  Expressions are nested tuples:
     <<"cmp", op, t1, t2>>   op in eq ne lt ge        <<"in", t, coll>>      (in_(t, coll) / contains(coll, t))
     <<"and", e, e>>  <<"or", e, e>>  <<"not", e>>
-    <<"exists", v, e>>  <<"forall", v, e>>   (family "quant": y is bound by the quantifier, only x is a query variable)
+    <<"exists", v, e>>   transparent at set level: every variable of e stays a query variable; the documentation's reading is
+                         "one result per value of v for which e holds for some values of the other variables"
+    <<"forall", v, e>>   v is bound universally over its domain (family "quant")
  Terms:  <<"var", v>>   <<"attr", v, name>>   <<"lit", c>>   <<"attr2", v, "ref", name>>  (x.ref.a)
  Layer R:  Sat (ordinary first-order reading), Answers (set of rows), Bag (one row per satisfying
            assignment of ALL the query's variables), InFragment (C02's conjunctive / else-if fragment).
@@ -30,7 +32,9 @@ AttrOf == [o \in Objs |-> CASE o = "o1" -> [a |-> 0, b |-> 0] [] o = "o2" -> [a 
                             [] o = "o3" -> [a |-> 1, b |-> 0] [] OTHER -> [a |-> 1, b |-> 1]]
 ItemsOf == [o \in Objs |-> CASE o = "o1" -> <<>> [] o = "o2" -> <<"o1">> [] o = "o3" -> <<"o1", "o4">> [] OTHER -> <<"o4", "o2">>]
 RefOf == [o \in Objs |-> CASE o = "o1" -> "o2" [] o = "o2" -> "o2" [] o = "o3" -> "o4" [] OTHER -> "o1"]
-Doms == { <<>>, <<"o3">>, <<"o1", "o2", "o3", "o4">> }
+\* the quantifier family also enumerates a domain in reverse order: an evaluation that abandons a pass over a domain part-way
+\* (for_all stops at the first counter-example) must still see the whole domain on the next pass
+Doms == { <<>>, <<"o3">>, <<"o1", "o2", "o3", "o4">> } \cup (IF Family = "quant" THEN { <<"o4", "o3", "o2", "o1">> } ELSE {})
 Sels == { <<"x">>, <<"y">>, <<"x", "y">> }
 
 A(v, n) == <<"attr", v, n>>
@@ -43,7 +47,7 @@ AtomsAccess == { Cmp("eq", <<"attr2", "x", "ref", "a">>, L(0)), Cmp("ge", <<"att
                  <<"in", <<"attr", "x", "ref">>, A("y", "items")>>, Cmp("eq", A("x", "ref"), <<"var", "y">>),
                  Cmp("ne", <<"var", "x">>, <<"var", "y">>), Cmp("eq", A("y", "a"), L(1)) }
 Binary == { Cmp("eq", A("x", "a"), A("y", "b")), <<"in", <<"var", "x">>, A("y", "items")>>, Cmp("ge", A("x", "b"), A("y", "a")) }
-AtomsQuant == { <<q, "y", c>> : q \in {"exists", "forall"}, c \in Binary }
+AtomsQuant == { <<"forall", "y", c>> : c \in Binary } \cup { <<"exists", v, c>> : v \in {"x", "y"}, c \in Binary }
               \cup { Cmp("eq", A("x", "a"), L(0)), Cmp("lt", A("x", "b"), L(1)) }
 Atoms == CASE Family = "logic" -> AtomsLogic [] Family = "logic6" -> AtomsLogic6 [] Family = "quant" -> AtomsQuant [] OTHER -> AtomsAccess
 RECURSIVE ExprD(_)
@@ -65,7 +69,7 @@ Sat(e, asg, dom) == CASE e[1] = "cmp" -> Apply(e[2], TermVal(e[3], asg), TermVal
                  [] e[1] = "and" -> Sat(e[2], asg, dom) /\ Sat(e[3], asg, dom)
                  [] e[1] = "or"  -> Sat(e[2], asg, dom) \/ Sat(e[3], asg, dom)
                  [] e[1] = "not" -> ~Sat(e[2], asg, dom)
-                 [] e[1] = "exists" -> \E o \in SeqToSet(dom[e[2]]) : Sat(e[3], With(asg, e[2], o), dom)
+                 [] e[1] = "exists" -> Sat(e[3], asg, dom)
                  [] e[1] = "forall" -> \A o \in SeqToSet(dom[e[2]]) : Sat(e[3], With(asg, e[2], o), dom)
 RECURSIVE VarsOf(_)
 VarsOf(e) == CASE e[1] = "lit" -> {}
@@ -73,7 +77,8 @@ VarsOf(e) == CASE e[1] = "lit" -> {}
                [] e[1] = "cmp" -> VarsOf(e[3]) \cup VarsOf(e[4])
                [] e[1] = "in" -> VarsOf(e[2]) \cup VarsOf(e[3])
                [] e[1] \in {"not", "notnode"} -> VarsOf(e[2])
-               [] e[1] \in {"exists", "forall"} -> VarsOf(e[3]) \ {e[2]}
+               [] e[1] = "exists" -> VarsOf(e[3]) \cup {e[2]}
+               [] e[1] = "forall" -> VarsOf(e[3]) \ {e[2]}
                [] OTHER -> VarsOf(e[2]) \cup VarsOf(e[3])
 QVars(e, sel) == VarsOf(e) \cup SeqToSet(sel)
 SatAsgs(e, dom, sel) == { g \in [QVars(e, sel) -> Objs] : (\A v \in QVars(e, sel) : g[v] \in SeqToSet(dom[v])) /\ Sat(e, g, dom) }
